@@ -41,6 +41,9 @@ def expand(word):
             out.append((",", ","))
             out.append(("str", '"s%d"' % (k + 3)))
             out.append(("]", "]"))
+        elif sym == "LISTDUP":
+            for j, tkn in enumerate(("[", '"dup"', ",", '"x%d"' % k, ",", '"dup"', "]")):
+                out.append(("str" if tkn.startswith('"') else tkn, tkn))
         elif sym.startswith("RAW:"):
             out.append(("raw", sym[4:]))
         elif sym.startswith('"'):
@@ -62,7 +65,7 @@ def expand(word):
     return out
 
 
-LAYOUTS = ("space", "lf", "crlf", "comments", "upper", "blank")
+LAYOUTS = ("space", "lf", "crlf", "comments", "upper", "blank", "rawcomments")
 MIXED_SEPS = (b" ", b"\n", b" /* \xc3\xa9 */ ", b"\r\n", b" # \xc3\xa9\xc3\xa9\n", b"\t", b"\n\n  ")
 MULTILINE_LAYOUTS = ("lf", "crlf", "comments")
 
@@ -101,6 +104,9 @@ def render(word, layout="space", raw=None):
             parts.append(b" # c \xc3\xa9\xc3\xa9 ;{\n" if i % 2 == 0 else b" /* c \xc3\xa9 ; { */\n")
         elif layout == "blank":
             parts.append(b"\t \n\n ")
+        elif layout == "rawcomments":
+            # comments are skipped as octets: Latin-1 / arbitrary bytes inside them are legal, on the same line as the next token
+            parts.append(b" /* caf\xe8 \xff */ " if i % 2 == 0 else b" # na\xefve \xe8\n")
         elif layout == "mixed":
             parts.append(MIXED_SEPS[i % len(MIXED_SEPS)])
         else:
